@@ -112,25 +112,36 @@ Section SpendLemmas.
   Notation good := (sig_good der_strict checksig).
 
   Lemma engine_deposit_cond : forall w tx i amount d sig pk,
-      dep_wf d -> (i < length (tx_ins tx))%nat -> nlen sig <= 520 -> nlen pk <= 520 ->
+      dep_wf d -> (i < length (tx_ins tx))%nat ->
       engine w tx i amount d sig pk =
       if deposit_cond hash160 der_strict checksig (spend_ctx w tx i amount d) d pk sig
       then Accept else Reject.
   Proof.
-    intros w tx i amount d sig pk W Hi Hs Hp. destruct w; unfold engine_on_deposit, spend_ctx, wrap_ver.
-    - apply p2sh_deposit_verify; auto.
-    - apply p2wsh_deposit_verify; auto.
+    intros w tx i amount d sig pk W Hi.
+    destruct (N.leb_spec (nlen sig) 520) as [Hs|Hs]; [destruct (N.leb_spec (nlen pk) 520) as [Hp|Hp]|].
+    - destruct w; unfold engine_on_deposit, spend_ctx, wrap_ver.
+      + apply p2sh_deposit_verify; auto.
+      + apply p2wsh_deposit_verify; auto.
+    - (* a public key above the 520-byte element limit *)
+      unfold deposit_cond. rewrite sig_accept_big by (right; assumption). cbn [andb].
+      destruct w; unfold engine_on_deposit.
+      + apply p2sh_deposit_verify_big; auto.
+      + apply p2wsh_deposit_verify_big; auto.
+    - unfold deposit_cond. rewrite sig_accept_big by (left; assumption). cbn [andb].
+      destruct w; unfold engine_on_deposit.
+      + apply p2sh_deposit_verify_big; auto.
+      + apply p2wsh_deposit_verify_big; auto.
   Qed.
 
   (* the whole spend condition *)
   Theorem spend_characterisation : forall w tx i amount d sig pk,
-      dep_wf d -> (i < length (tx_ins tx))%nat -> nlen sig <= 520 -> nlen pk <= 520 ->
+      dep_wf d -> (i < length (tx_ins tx))%nat ->
       engine w tx i amount d sig pk =
       if spend_allowed (dp_wpkh d) (dp_rpkh d) (dp_lock d) (hash160 pk) (good w tx i amount d sig pk)
                        (tx_lock tx) (input_sequence tx i)
       then Accept else Reject.
   Proof.
-    intros w tx i amount d sig pk W Hi Hs Hp. rewrite engine_deposit_cond by assumption.
+    intros w tx i amount d sig pk W Hi. rewrite engine_deposit_cond by assumption.
     unfold deposit_cond, spend_allowed, sig_good.
     rewrite cltv_pass_spec by (unfold dep_wf in W; tauto).
     rewrite ctx_sequence_spend. unfold spend_ctx at 3. cbn [c_tx].
@@ -138,23 +149,23 @@ Section SpendLemmas.
   Qed.
 
   Theorem wallet_key_spends_any_time : forall w tx i amount d sig pk,
-      dep_wf d -> (i < length (tx_ins tx))%nat -> nlen sig <= 520 -> nlen pk <= 520 ->
+      dep_wf d -> (i < length (tx_ins tx))%nat ->
       hash160 pk = dp_wpkh d -> good w tx i amount d sig pk = true ->
       engine w tx i amount d sig pk = Accept.
   Proof.
-    intros w tx i amount d sig pk W Hi Hs Hp Hk Hg. rewrite spend_characterisation by assumption.
+    intros w tx i amount d sig pk W Hi Hk Hg. rewrite spend_characterisation by assumption.
     unfold spend_allowed. now rewrite Hg, Hk, bytes_eqb_refl.
   Qed.
 
   Theorem refund_key_iff_locktime : forall w tx i amount d sig pk,
-      dep_wf d -> (i < length (tx_ins tx))%nat -> nlen sig <= 520 -> nlen pk <= 520 ->
+      dep_wf d -> (i < length (tx_ins tx))%nat ->
       hash160 pk = dp_rpkh d -> dp_rpkh d <> dp_wpkh d -> good w tx i amount d sig pk = true ->
       (engine w tx i amount d sig pk = Accept <->
        lock_standard (dp_lock d) = true /\
        refund_open (dp_lock d) (tx_lock tx) (input_sequence tx i) = true) /\
       (engine w tx i amount d sig pk <> Accept -> engine w tx i amount d sig pk = Reject).
   Proof.
-    intros w tx i amount d sig pk W Hi Hs Hp Hk Hne Hg. rewrite spend_characterisation by assumption.
+    intros w tx i amount d sig pk W Hi Hk Hne Hg. rewrite spend_characterisation by assumption.
     unfold spend_allowed. rewrite Hg, Hk, bytes_eqb_refl.
     replace (bytes_eqb (dp_rpkh d) (dp_wpkh d)) with false
       by (symmetry; apply bytes_eqb_neq; assumption).
@@ -164,14 +175,14 @@ Section SpendLemmas.
   Qed.
 
   Theorem no_other_key : forall w tx i amount d sig pk,
-      dep_wf d -> (i < length (tx_ins tx))%nat -> nlen sig <= 520 -> nlen pk <= 520 ->
+      dep_wf d -> (i < length (tx_ins tx))%nat ->
       engine w tx i amount d sig pk = Accept ->
       good w tx i amount d sig pk = true /\
       (hash160 pk = dp_wpkh d \/
        (hash160 pk = dp_rpkh d /\ lock_standard (dp_lock d) = true /\
         refund_open (dp_lock d) (tx_lock tx) (input_sequence tx i) = true)).
   Proof.
-    intros w tx i amount d sig pk W Hi Hs Hp H. rewrite spend_characterisation in H by assumption.
+    intros w tx i amount d sig pk W Hi H. rewrite spend_characterisation in H by assumption.
     unfold spend_allowed in H.
     destruct (good w tx i amount d sig pk); [|discriminate]. split; [reflexivity|]. cbn [andb] in H.
     destruct (bytes_eqb (hash160 pk) (dp_wpkh d)) eqn:E1; [left; now apply bytes_eqb_eq|].
@@ -185,14 +196,14 @@ Section SpendLemmas.
   Hypothesis hash160_injective : forall a b, hash160 a = hash160 b -> a = b.
 
   Theorem no_other_key_injective : forall w tx i amount d sig pk wallet_pk refund_pk,
-      dep_wf d -> (i < length (tx_ins tx))%nat -> nlen sig <= 520 -> nlen pk <= 520 ->
+      dep_wf d -> (i < length (tx_ins tx))%nat ->
       dp_wpkh d = hash160 wallet_pk -> dp_rpkh d = hash160 refund_pk ->
       engine w tx i amount d sig pk = Accept ->
       pk = wallet_pk \/
       (pk = refund_pk /\ refund_open (dp_lock d) (tx_lock tx) (input_sequence tx i) = true).
   Proof.
-    intros w tx i amount d sig pk wpk rpk W Hi Hs Hp E1 E2 H.
-    destruct (no_other_key _ _ _ _ _ _ _ W Hi Hs Hp H) as [_ [K|(K&_&R)]].
+    intros w tx i amount d sig pk wpk rpk W Hi E1 E2 H.
+    destruct (no_other_key _ _ _ _ _ _ _ W Hi H) as [_ [K|(K&_&R)]].
     - left. apply hash160_injective. congruence.
     - right. split; [apply hash160_injective; congruence|assumption].
   Qed.
@@ -205,14 +216,14 @@ Theorem embedded_data_inert :
     (forall x, length (hash160 x) = 20%nat) -> (forall x, length (sha256 x) = 32%nat) ->
     forall w tx i amount d d' sig sig' pk,
       dep_wf d -> dep_wf d' -> same_conditions d d' ->
-      (i < length (tx_ins tx))%nat -> nlen sig <= 520 -> nlen sig' <= 520 -> nlen pk <= 520 ->
+      (i < length (tx_ins tx))%nat ->
       sig_good der_strict checksig w tx i amount d sig pk =
       sig_good der_strict checksig w tx i amount d' sig' pk ->
       engine_on_deposit hash160 sha256 der_strict checksig w tx i amount d sig pk =
       engine_on_deposit hash160 sha256 der_strict checksig w tx i amount d' sig' pk.
 Proof.
   intros hash160 sha256 der_strict checksig H1 H2 w tx i amount d d' sig sig' pk W W' (E1&E2&E3)
-         Hi Hs Hs' Hp Hg.
+         Hi Hg.
   rewrite !spend_characterisation by assumption. now rewrite E1, E2, E3, Hg.
 Qed.
 
@@ -320,6 +331,58 @@ Proof.
   destruct (bytes_eqb (table_fn (dc_hash160 c) (sp_pk s)) (di_rpkh (dc_in c))); [|reflexivity].
   cbn [orb andb].
   destruct (refund_open _ _ _); destruct (lock_standard _); reflexivity.
+Qed.
+
+(* the model's script embeds the data *)
+Theorem model_script_embeds : forall di s,
+    arrays_ok di = true -> script_of di = Some s -> Concrete.embeds di s = true.
+Proof.
+  intros di s A H. destruct (script_of_spec di s H) as (b&E&L&_&G). destruct (G A) as [W ->].
+  unfold Concrete.embeds. rewrite parse_ser by (apply deposit_ops_wf; assumption). rewrite E.
+  unfold deposit_ops, to_dep. cbn [dp_depositor dp_extra dp_blinding app].
+  destruct (di_extra di); cbn [app opt_eqb]; rewrite !bytes_eqb_refl; reflexivity.
+Qed.
+
+Ltac next_op H ops :=
+  let o := fresh "o" in
+  destruct ops as [|o ops]; [discriminate H|]; destruct o; try discriminate H.
+
+Theorem embeds_sound : forall di script,
+    Concrete.embeds di script = true ->
+    exists e dep ops, parse script = Some (OPush e dep :: ODrop :: ops) /\
+      hex_decode (trim0x (di_depositor di)) = Some dep /\
+      match di_extra di with
+      | Some x => exists e1 e2 r, ops = OPush e1 x :: ODrop :: OPush e2 (di_blinding di) :: ODrop :: ODup :: r
+      | None => exists e2 r, ops = OPush e2 (di_blinding di) :: ODrop :: ODup :: r
+      end.
+Proof.
+  intros di script H. unfold Concrete.embeds in H.
+  destruct (parse script) as [ops|]; [|discriminate].
+  next_op H ops. next_op H ops.
+  apply andb_prop in H as [H1 H2].
+  eexists _, _, ops. split; [reflexivity|]. split.
+  { destruct (hex_decode (trim0x (di_depositor di))) as [b|]; [|discriminate].
+    cbn in H1. apply bytes_eqb_eq in H1. now subst. }
+  destruct (di_extra di) as [x|].
+  - next_op H2 ops. next_op H2 ops. next_op H2 ops. next_op H2 ops. next_op H2 ops.
+    apply andb_prop in H2 as [A B]. apply bytes_eqb_eq in A, B. subst. eauto.
+  - next_op H2 ops. next_op H2 ops. next_op H2 ops.
+    apply bytes_eqb_eq in H2. subst. eauto.
+Qed.
+
+Theorem spec_ok_sound : forall c : dep_case,
+    Concrete.spec_ok c = true ->
+    match dc_script c with
+    | Some script => Concrete.embeds (dc_in c) script = true /\
+                     forall s, In s (dc_spends c) -> Concrete.spec_spend c s = true
+    | None => script_of (dc_in c) = None /\ dc_spends c = []
+    end.
+Proof.
+  intros c H. unfold Concrete.spec_ok in H. destruct (dc_script c) as [script|].
+  - apply andb_prop in H as [H1 H2]. split; [assumption|]. now apply forallb_forall.
+  - apply andb_prop in H as [H1 H2]. split.
+    + destruct (script_of (dc_in c)); [discriminate|reflexivity].
+    + destruct (dc_spends c); [reflexivity|discriminate].
 Qed.
 
 Theorem judge_agree_sound : forall c : dep_case,
